@@ -62,6 +62,26 @@ ROUND4 = {
 for _p, _t in ROUND4.items():
     CLAIMS[_p]["text"] += _t
 
+# round-5 additions
+ROUND5 = {
+    "C01": " Scale: a 6000-key concrete key set; a root with all 256 byte branches; partially filled option structs; key sets whose last inner node sits on the last bit of a node-type bitmap word.",
+    "C04": " A second pair of scans after an iterator was polled past its end.",
+    "C05": " With three Marshal outputs alive at once the instance loaded from one of them answers as the trie it was marshalled from.",
+    "C06": " Scale: a 30000-key set (45000+ nodes) through the pre-0.5.10 writer model.",
+    "C08": " Accepted variable-width values (symbolic String16 lengths, empty-or-two-byte encoder) are read back (lemma k_vlen).",
+    "C11": " Also on skeleton tries (l3_nowrite), and the caller rewriting the Stat report it was handed reaches no shared state.",
+    "C12": " Also a root with all 256 byte branches.",
+    "C14": " Also key sets whose last inner node sits on the last bit of a node-type bitmap word.",
+    "C15": " Also TypeEncoders over application-defined named integer types (the decoded value has the named type).",
+    "C16": " Also elements of a named integer type through the generic array (New / NewEmpty + load).",
+    "C17": " Also after an earlier build that was given a partially filled option struct.",
+    "C18": " Also with values whose encoding is empty for some retained keys.",
+    "C19": " Every line names its node and each node id 0..NodeCnt-1 appears exactly once, also on a 6000-key trie (7892 nodes).",
+    "C20": " The caller's [][]byte value slice is unchanged element by element after the build.",
+}
+for _p, _t in ROUND5.items():
+    CLAIMS[_p]["text"] += _t
+
 def main():
     checks = []
     for pid in ALL:
